@@ -16,6 +16,7 @@ package checker
 //@   property C03 C04
 //@   assigns *
 //@   ensures[collections-balanced] len(v.collections) == old(len(v.collections))
+//@   ensures[expect-kept] v.expect == old(v.expect)
 
 //@ func checker.dereference
 //@   pure
